@@ -505,7 +505,7 @@ func poolRunMain(args []string) {
 	reps1 := fs.Int("runs", 10, "repetitions per one-pool plan")
 	reps2 := fs.Int("runs2", 2, "repetitions per plan with several pools")
 	sweep := fs.Int("sweep", 0, "one-pool cancel plans: runs per cancel position, swept over every event position (0: random positions)")
-	wd := fs.Int("watchdog-ms", 3000, "watchdog (a hang is confirmed twice)")
+	wd := fs.Int("watchdog-ms", 10000, "watchdog (a hang is confirmed twice); 2 s once a first hang has been confirmed")
 	fs.Parse(args)
 	plans := prDecodePlans(*in)
 	w := vt.Create(*out)
@@ -523,7 +523,11 @@ func poolRunMain(args []string) {
 				return // one confirmed hang per plan is the observation; do not wait for it again and again
 			}
 			id++
-			h, n := prRunOne(w, id, pl, seed*1000003+int64(pl.ID)*7919+int64(k), cancelAt, watchdog)
+			wdog := watchdog
+			if hangs > 0 && wdog > 2*time.Second {
+				wdog = 2 * time.Second // the verdict is there already; do not spend minutes on the other plans of the class
+			}
+			h, n := prRunOne(w, id, pl, seed*1000003+int64(pl.ID)*7919+int64(k), cancelAt, wdog)
 			if n > maxEv {
 				maxEv = n
 			}
